@@ -23,6 +23,7 @@ import (
 	"berty.tech/go-orbit-db/stores"
 	"berty.tech/go-orbit-db/stores/operation"
 	"berty.tech/go-orbit-db/stores/replicator"
+	"berty.tech/go-orbit-db/verifhook"
 	"github.com/ipfs/boxo/path"
 	cid "github.com/ipfs/go-cid"
 	datastore "github.com/ipfs/go-datastore"
@@ -303,6 +304,8 @@ func (b *BaseStore) InitBaseStore(ipfs coreiface.CoreAPI, identity *identityprov
 
 			case replicator.EventLoadEnd:
 				span.AddEvent("replicator-load-end")
+
+				verifhook.Point("store.beforeLoadComplete", b.id)
 
 				// @FIXME(gfanton): should we run this in a goroutine ?
 				b.replicationLoadComplete(ctx, evt.Logs)
@@ -841,6 +844,8 @@ func (b *BaseStore) AddOperation(ctx context.Context, op operation.Operation, on
 		return nil, fmt.Errorf("unable to append data on log: %w", err)
 	}
 
+	verifhook.Point("write.afterAppend", e)
+
 	b.recalculateReplicationStatus(e.GetClock().GetTime())
 
 	marshaledEntry, err := json.Marshal([]ipfslog.Entry{e})
@@ -853,9 +858,13 @@ func (b *BaseStore) AddOperation(ctx context.Context, op operation.Operation, on
 		return nil, fmt.Errorf("unable to add data to cache: %w", err)
 	}
 
+	verifhook.Point("write.afterPersist", e)
+
 	if err := b.updateIndex(ctx); err != nil {
 		return nil, fmt.Errorf("unable to update index: %w", err)
 	}
+
+	verifhook.Point("write.afterIndex", e)
 
 	if err := b.emitters.evtWrite.Emit(stores.NewEventWrite(b.Address(), e, oplog.Heads().Slice())); err != nil {
 		b.logger.Warn("unable to emit event write", zap.Error(err))
